@@ -55,6 +55,8 @@ def gen_case(rng, big=False):
         if pair_titles and k < 2:
             title = pair_titles[k]            # "Drums L" / "Drums R": tracks are stereo files on their own, never merged
         tracks.append({"number": k + 1, "mode": "AUDIO", "title": title, "indices": idx})
+    if len(tracks) >= 2 and rng.random() < 0.25 and not pair_titles:
+        tracks[0]["title"], tracks[1]["title"] = "Op. 27 No. 1 - Adagio", "Op. 27 No. 2 - Allegretto"      # equal up to their last full stop
     # several tracks carrying the same TITLE (an "Interlude" that returns, the album title on every track)
     if len(tracks) >= 2 and rng.random() < 0.3:
         dup = rng.choice(["Interlude", "Album", tracks[0]["title"] or "Same"])
